@@ -28,13 +28,17 @@ import (
 	"time"
 
 	"github.com/AdguardTeam/AdGuardDNS/internal/agd"
+	"github.com/AdguardTeam/AdGuardDNS/internal/agdcache"
 	"github.com/AdguardTeam/AdGuardDNS/internal/dnssvc"
 	"github.com/AdguardTeam/AdGuardDNS/internal/ecscache"
 	"github.com/AdguardTeam/AdGuardDNS/internal/filter"
 	"github.com/AdguardTeam/AdGuardDNS/internal/geoip"
 	"github.com/AdguardTeam/AdGuardDNS/verif/stack"
 	"github.com/AdguardTeam/AdGuardDNS/verif/vkit"
+	"github.com/AdguardTeam/golibs/container"
+	"github.com/AdguardTeam/golibs/netutil"
 	"github.com/miekg/dns"
+	"github.com/oschwald/maxminddb-golang"
 )
 
 // includeDupOption enables the input class "two ECS options in one query".
@@ -73,6 +77,13 @@ type world struct {
 	Clients []client                `json:"clients"`
 	// Plans is how the coarse subnets of a family (v4, v6) relate.
 	Plans [2]string `json:"coarse_subnet_plans"`
+	// Real is set in the phase that runs the real geoip.File on the test
+	// databases: Real[i][f] are the coarse subnets a reference geoip.File
+	// instance assigns to the location of zone Nets[i] in family f (0 = IPv4,
+	// 1 = IPv6; with and without the subdivision).  Countries[i] is its country.
+	Real      [][2][]netip.Prefix `json:"real_geoip_subnets,omitempty"`
+	Countries []string            `json:"-"`
+	IPCache   int                 `json:"real_geoip_ip_cache,omitempty"`
 }
 
 func famOf(a netip.Addr) int {
@@ -91,6 +102,8 @@ func zeroPrefix(fam int) netip.Prefix {
 
 // locOf returns the index of the location GeoIP assigns to a, or -1.
 func (w *world) locOf(a netip.Addr) int {
+	// GeoIP treats an IPv4-mapped IPv6 address as the IPv4 address.
+	a = a.Unmap()
 	for i, n := range w.Nets {
 		if n[0].Contains(a) || n[1].Contains(a) {
 			return i
@@ -105,6 +118,9 @@ func (w *world) coarse(loc, fam int) netip.Prefix {
 	if loc < 0 {
 		return zeroPrefix(fam)
 	}
+	if w.Real != nil {
+		return w.Real[loc][fam/6][0]
+	}
 	if p, ok := w.ASNSub[fmt.Sprintf("%d/%d", loc, fam)]; ok {
 		return p
 	}
@@ -114,8 +130,26 @@ func (w *world) coarse(loc, fam int) netip.Prefix {
 	return zeroPrefix(fam)
 }
 
+// coarseSet is coarse for worlds where the reference may name more than one
+// subnet for a location (real database: with and without the subdivision).
+func (w *world) coarseSet(loc, fam int) []netip.Prefix {
+	if loc >= 0 && w.Real != nil {
+		return w.Real[loc][fam/6]
+	}
+	return []netip.Prefix{w.coarse(loc, fam)}
+}
+
 // isCoarse reports whether p is any GeoIP coarse subnet of this world.
 func (w *world) isCoarse(p netip.Prefix) bool {
+	for _, z := range w.Real {
+		for _, ps := range z {
+			for _, q := range ps {
+				if q == p && q.Bits() > 0 {
+					return true
+				}
+			}
+		}
+	}
 	for _, q := range w.ASNSub {
 		if q == p {
 			return true
@@ -328,7 +362,10 @@ func newWorld(rng *rand.Rand) *world {
 	return w
 }
 
-func (w *world) geo() geoip.Interface {
+func (w *world) geo() (geoip.Interface, error) {
+	if w.Real != nil {
+		return newRealFile(w.IPCache)
+	}
 	g := stack.NewGeo()
 	for i, l := range w.Locs {
 		gl := &geoip.Location{Country: geoip.Country(l.Country), Continent: geoip.ContinentEU, ASN: geoip.ASN(l.ASN)}
@@ -343,7 +380,270 @@ func (w *world) geo() geoip.Interface {
 			}
 		}
 	}
-	return g
+	return g, nil
+}
+
+// ---------------------------------------------------------------------------
+// Real GeoIP database (geoip.File on the repository's test databases).
+// ---------------------------------------------------------------------------
+
+// zone is a range of addresses that all have the same records in both test
+// databases and that covers at most one block of the GeoIP IP cache (/24,
+// /56), so that the documented cache granularity cannot make lookups
+// order-dependent.  Sub are the coarse subnets a reference geoip.File assigns
+// to its location.
+type zone struct {
+	Net     netip.Prefix
+	Country string
+	ASN     uint32
+	Sub     [2][]netip.Prefix
+}
+
+type realDB struct {
+	zones4, zones6, unknown []zone
+}
+
+var (
+	realOnce sync.Once
+	realData *realDB
+	realErr  error
+)
+
+func geoPaths() (city, isp string) {
+	repo := os.Getenv("VERIF_REPO")
+	if repo == "" {
+		repo = "/repo"
+	}
+	return repo + "/internal/geoip/testdata/GeoIP2-City-Test.mmdb", repo + "/internal/geoip/testdata/GeoIP2-ISP-Test.mmdb"
+}
+
+// newRealFile builds and refreshes a geoip.File configured like the
+// repository's own tests.
+func newRealFile(ipCache int) (*geoip.File, error) {
+	city, isp := geoPaths()
+	top := map[geoip.Country]geoip.ASN{geoip.CountryAU: 1221, geoip.CountryJP: 2516, geoip.CountryUS: 7922}
+	f := geoip.NewFile(&geoip.FileConfig{
+		Logger: stack.Logger(), CacheManager: agdcache.EmptyManager{}, ASNPath: isp, CountryPath: city,
+		HostCacheCount: 0, IPCacheCount: ipCache,
+		AllTopASNs: container.NewMapSet[geoip.ASN](1221, 2516, 7922), CountryTopASNs: top,
+	})
+	ctx, cancel := context.WithTimeout(context.Background(), 2*time.Minute)
+	defer cancel()
+	if err := f.Refresh(ctx); err != nil {
+		return nil, err
+	}
+	return f, nil
+}
+
+func ipnetPrefix(n *net.IPNet) netip.Prefix {
+	if n == nil {
+		return netip.Prefix{}
+	}
+	ones, bits := n.Mask.Size()
+	a, ok := netip.AddrFromSlice(n.IP)
+	if !ok {
+		return netip.Prefix{}
+	}
+	if bits == 128 && a.Is4In6() && ones >= 96 {
+		return netip.PrefixFrom(a.Unmap(), ones-96)
+	}
+	if a.Is4In6() {
+		a = a.Unmap()
+	}
+	if ones > a.BitLen() {
+		return netip.Prefix{}
+	}
+	return netip.PrefixFrom(a, ones)
+}
+
+func cacheBlock(a netip.Addr) netip.Prefix {
+	bits := 24
+	if a.Is6() {
+		bits = 56
+	}
+	p, _ := a.Prefix(bits)
+	return p
+}
+
+// loadRealDB enumerates the networks of the test databases, cuts zones out of
+// them and asks a reference geoip.File (its own instance, queried with plain,
+// unmapped addresses only, once per zone) for their locations and subnets.
+func loadRealDB() (*realDB, error) {
+	realOnce.Do(func() {
+		city, isp := geoPaths()
+		cr, err := maxminddb.Open(city)
+		if err != nil {
+			realErr = err
+			return
+		}
+		defer cr.Close()
+		ar, err := maxminddb.Open(isp)
+		if err != nil {
+			realErr = err
+			return
+		}
+		defer ar.Close()
+		ref, err := newRealFile(8192)
+		if err != nil {
+			realErr = err
+			return
+		}
+		// The enumeration is deterministic (database order, fixed offsets).
+		rng := rand.New(rand.NewPCG(5, 5))
+		var cands []netip.Addr
+		nets := cr.Networks(maxminddb.SkipAliasedNetworks)
+		for nets.Next() {
+			var rec struct {
+				Country struct {
+					ISO string `maxminddb:"iso_code"`
+				} `maxminddb:"country"`
+			}
+			n, nerr := nets.Network(&rec)
+			if nerr != nil || rec.Country.ISO == "" {
+				continue
+			}
+			p := ipnetPrefix(n)
+			if !p.IsValid() {
+				continue
+			}
+			cands = append(cands, p.Addr(), randAddrIn(rng, p), randAddrIn(rng, p))
+		}
+		for _, s := range []string{"10.77.1.9", "192.0.2.77", "fd12:3456:789a:1100::5", "2001:db8:77:100::9"} {
+			cands = append(cands, netip.MustParseAddr(s))
+		}
+		blocks := map[netip.Prefix]bool{}
+		var zones []zone
+		for _, a := range cands {
+			var x, y any
+			cn, _, e1 := cr.LookupNetwork(net.IP(a.AsSlice()), &x)
+			an, _, e2 := ar.LookupNetwork(net.IP(a.AsSlice()), &y)
+			z, zb := ipnetPrefix(cn), ipnetPrefix(an)
+			if e1 != nil || e2 != nil || !z.IsValid() || !zb.IsValid() || !z.Contains(a) || !zb.Contains(a) {
+				continue
+			}
+			if zb.Bits() > z.Bits() {
+				z = zb
+			}
+			b := cacheBlock(a)
+			if z.Bits() < b.Bits() {
+				z = b
+			}
+			if blocks[b] {
+				continue
+			}
+			l, lerr := ref.Data("", randAddrIn(rng, z))
+			if lerr != nil || l == nil {
+				continue
+			}
+			zn := zone{Net: z, Country: string(l.Country), ASN: uint32(l.ASN)}
+			for f, fam := range []netutil.AddrFamily{netutil.AddrFamilyIPv4, netutil.AddrFamilyIPv6} {
+				for _, sub := range []string{"", l.TopSubdivision} {
+					lc := &geoip.Location{Country: l.Country, ASN: l.ASN, TopSubdivision: sub}
+					sp, serr := ref.SubnetByLocation(lc, fam)
+					if serr != nil || !sp.IsValid() {
+						continue
+					}
+					if !inSet(sp, zn.Sub[f]) {
+						zn.Sub[f] = append(zn.Sub[f], sp)
+					}
+				}
+			}
+			if len(zn.Sub[0]) == 0 || len(zn.Sub[1]) == 0 {
+				continue
+			}
+			blocks[b] = true
+			zones = append(zones, zn)
+		}
+		// No zone may touch a coarse subnet: a client address or client prefix
+		// inside one would make a leak unrecognisable.
+		var coarse []netip.Prefix
+		for _, zn := range zones {
+			for _, ps := range zn.Sub {
+				for _, q := range ps {
+					if q.Bits() > 0 {
+						coarse = append(coarse, q)
+					}
+				}
+			}
+		}
+		d := &realDB{}
+		for _, zn := range zones {
+			if overlapsAny(zn.Net, coarse) {
+				continue
+			}
+			switch {
+			case zn.Country == "":
+				d.unknown = append(d.unknown, zn)
+			case zn.Net.Addr().Is4():
+				d.zones4 = append(d.zones4, zn)
+			default:
+				d.zones6 = append(d.zones6, zn)
+			}
+		}
+		realData = d
+	})
+	return realData, realErr
+}
+
+func countriesOf(zs []zone) map[string]bool {
+	m := map[string]bool{}
+	for _, z := range zs {
+		m[z.Country] = true
+	}
+	return m
+}
+
+// newRealWorld picks zones of the real databases for one history: all IPv4
+// zones, some IPv6 zones of different countries and the zones without a
+// country.
+func newRealWorld(rng *rand.Rand, d *realDB) *world {
+	w := &world{ASNSub: map[string]netip.Prefix{}, CtrySub: map[string]netip.Prefix{}, IPCache: []int{1, 3, 64, 64}[rng.IntN(4)]}
+	add := func(z zone) int {
+		n := [2]netip.Prefix{}
+		n[famOf(z.Net.Addr())/6] = z.Net
+		w.Nets = append(w.Nets, n)
+		w.Locs = append(w.Locs, location{z.Country, z.ASN})
+		w.Real = append(w.Real, z.Sub)
+		w.Countries = append(w.Countries, z.Country)
+		return len(w.Nets) - 1
+	}
+	var idx4, idx6, idxU []int
+	for _, i := range rng.Perm(len(d.zones4)) {
+		if len(idx4) < 10 {
+			idx4 = append(idx4, add(d.zones4[i]))
+		}
+	}
+	seen := map[string]int{}
+	for _, i := range rng.Perm(len(d.zones6)) {
+		if z := d.zones6[i]; len(idx6) < 7 && seen[z.Country] < 2 {
+			seen[z.Country]++
+			idx6 = append(idx6, add(z))
+		}
+	}
+	for _, z := range d.unknown {
+		idxU = append(idxU, add(z))
+	}
+	all := append(append(append([]int{}, idx4...), idx6...), idxU...)
+	for k := 0; k < 10; k++ {
+		pool := all
+		switch {
+		case k < 4:
+			pool = idx4
+		case k < 8:
+			pool = idx6
+		}
+		zi := pool[rng.IntN(len(pool))]
+		z := w.Nets[zi][0]
+		if !z.IsValid() {
+			z = w.Nets[zi][1]
+		}
+		a := randAddrIn(rng, z)
+		if z.Bits() == a.BitLen() {
+			a = z.Addr()
+		}
+		w.Clients = append(w.Clients, client{Addr: a, Loc: zi})
+	}
+	return w
 }
 
 // ---------------------------------------------------------------------------
@@ -471,7 +771,11 @@ func pickTTL(rng *rand.Rand) uint32 {
 }
 
 func newHistory(rng *rand.Rand, variant string, idx int) *history {
-	h := &history{Variant: variant, Index: idx, World: newWorld(rng)}
+	return newHistoryIn(rng, variant, idx, newWorld(rng))
+}
+
+func newHistoryIn(rng *rand.Rand, variant string, idx int, w *world) *history {
+	h := &history{Variant: variant, Index: idx, World: w}
 	h.Cache.ECSCount = []int{1, 3, 100, 100}[rng.IntN(4)]
 	h.Cache.NoECSCount = []int{1, 3, 100, 100}[rng.IntN(4)]
 	if rng.IntN(3) == 0 {
@@ -525,6 +829,18 @@ func newHistory(rng *rand.Rand, variant string, idx int) *history {
 
 // genValid makes a well-formed, non-zero option from client space.
 func genValid(rng *rand.Rand, w *world, cl int) ecsSpec {
+	if w.Real != nil {
+		return genValidReal(rng, w)
+	}
+	if rng.IntN(12) == 0 {
+		// An IPv6-family option that carries an IPv4-mapped address; GeoIP
+		// locates it like the IPv4 address.
+		base := unknown4[rng.IntN(len(unknown4))]
+		if rng.IntN(4) > 0 {
+			base = w.Nets[rng.IntN(3)][0]
+		}
+		return mappedSpec(netip.PrefixFrom(randAddrIn(rng, base), 16+rng.IntN(17)).Masked())
+	}
 	fam := []int{4, 6}[rng.IntN(2)]
 	if rng.IntN(3) > 0 {
 		fam = famOf(w.Clients[cl].Addr)
@@ -568,7 +884,51 @@ func genValid(rng *rand.Rand, w *world, cl int) ecsSpec {
 	return e
 }
 
+// mappedSpec is the IPv6-family option ::ffff:a.b.c.d/(96+n) for the IPv4
+// prefix a.b.c.d/n.
+func mappedSpec(p4 netip.Prefix) ecsSpec {
+	a4 := p4.Masked().Addr().As4()
+	raw := netip.AddrFrom16([16]byte{10: 0xff, 11: 0xff, 12: a4[0], 13: a4[1], 14: a4[2], 15: a4[3]}).AsSlice()
+	bits := 96 + p4.Bits()
+	return ecsSpec{Kind: "valid", Family: 2, Bits: uint8(bits), Addr: raw[:(bits+7)/8]}
+}
+
+// isMapped reports whether the option is an IPv6-family option with an
+// IPv4-mapped address.
+func (e *ecsSpec) isMapped() bool {
+	c := e.class()
+	return (c == "valid" || c == "dup" || c == "lenient") && e.Family == 2 && e.Bits >= 96 && e.prefix().Addr().Is4In6()
+}
+
+// genValidReal draws a well-formed option from the zones of a real-database
+// world: never shorter than the zone (so that the reference location of its
+// address is known), plain or, for IPv4 zones, IPv4-mapped.
+func genValidReal(rng *rand.Rand, w *world) ecsSpec {
+	zi := rng.IntN(len(w.Nets))
+	z, fam := w.Nets[zi][0], 4
+	if !z.IsValid() {
+		z, fam = w.Nets[zi][1], 6
+	}
+	a := randAddrIn(rng, z)
+	if z.Bits() == a.BitLen() {
+		a = z.Addr()
+	}
+	bits := z.Bits() + rng.IntN(a.BitLen()-z.Bits()+1)
+	if typical := map[int]int{4: 24, 6: 56}[fam]; typical >= z.Bits() && rng.IntN(2) == 0 {
+		bits = typical
+	}
+	p := netip.PrefixFrom(a, bits).Masked()
+	if fam == 4 && rng.IntN(2) == 0 {
+		return mappedSpec(p)
+	}
+	raw := p.Addr().AsSlice()
+	return ecsSpec{Kind: "valid", Family: uint16(1 + fam/6), Bits: uint8(bits), Addr: raw[:(bits+7)/8]}
+}
+
 func genECS(rng *rand.Rand, w *world, cl int) ecsSpec {
+	if w.Real != nil && rng.IntN(100) < 45 {
+		return genValid(rng, w, cl)
+	}
 	x := rng.IntN(100)
 	switch {
 	case x < 33:
@@ -627,7 +987,9 @@ func genECS(rng *rand.Rand, w *world, cl int) ecsSpec {
 		return e
 	case x < 93:
 		e := genValid(rng, w, cl)
-		if len(e.Addr) < 2 {
+		if len(e.Addr) < 2 || w.Real != nil {
+			// (in a real-database world a shortened address could leave its
+			// zone)
 			return e
 		}
 		e.Kind = "short"
@@ -972,10 +1334,14 @@ var filteringGroups = map[agd.FilteringGroupID]*agd.FilteringGroup{"fg": {ID: "f
 
 func newRunner(h *history, yield func()) (*runner, error) {
 	rn := &runner{h: h, calls: map[int]*callRec{}, altCtr: map[int]int{}}
+	gi, err := h.World.geo()
+	if err != nil {
+		return nil, err
+	}
 	st, err := stack.New(&stack.Options{
 		Cache: &dnssvc.CacheConfig{Type: dnssvc.CacheTypeECS, ECSCount: h.Cache.ECSCount, NoECSCount: h.Cache.NoECSCount,
 			MinTTL: h.Cache.MinTTL, OverrideCacheTTL: h.Cache.Override},
-		GeoIP:           h.World.geo(),
+		GeoIP:           gi,
 		Upstream:        rn.upstream,
 		ServerGroups:    []*agd.ServerGroup{group},
 		FilteringGroups: filteringGroups,
@@ -1020,16 +1386,16 @@ func (rn *runner) serve(i int) *obs {
 func (w *world) mapped(c client, e *ecsSpec) (fam int, set []netip.Prefix) {
 	fam = famOf(c.Addr)
 	if e.class() == "none" {
-		return fam, []netip.Prefix{w.coarse(c.Loc, fam)}
+		return fam, w.coarseSet(c.Loc, fam)
 	}
 	p := e.prefix()
 	fam = famOf(p.Addr())
 	if p.Bits() == 0 {
 		return fam, nil
 	}
-	set = []netip.Prefix{w.coarse(c.Loc, fam)}
+	set = append(set, w.coarseSet(c.Loc, fam)...)
 	if l := w.locOf(p.Addr()); l >= 0 {
-		set = append(set, w.coarse(l, fam))
+		set = append(set, w.coarseSet(l, fam)...)
 	}
 	return fam, set
 }
@@ -1121,6 +1487,7 @@ func (rn *runner) check(r *vkit.Run, observed []*obs, sequential bool) {
 	witness := func(i int, extra map[string]any) func() any {
 		return func() any { return rn.witness(observed, sequential, i, extra) }
 	}
+	lastMapped := ""
 	for i, o := range observed {
 		if o == nil {
 			continue
@@ -1130,6 +1497,26 @@ func (rn *runner) check(r *vkit.Run, observed []*obs, sequential bool) {
 		cl := w.Clients[s.Client]
 		cls := s.ECS.class()
 		r.Bucket("requests", 1)
+		if w.Real != nil {
+			r.Bucket("realgeo_requests", 1)
+			noteCountry(w.Countries[cl.Loc], false)
+		}
+		if s.ECS.isMapped() {
+			r.Bucket("mapped_option_requests", 1)
+			if pl := w.locOf(s.ECS.prefix().Addr()); w.Real != nil && pl >= 0 {
+				r.Bucket("realgeo_mapped_option_requests", 1)
+				c := w.Countries[pl]
+				noteCountry(c, true)
+				if sequential && lastMapped != "" && lastMapped != c {
+					r.Bucket("realgeo_mapped_option_after_mapped_option_of_other_country", 1)
+				}
+				lastMapped = c
+			}
+		} else if w.Real != nil && cls == "valid" && s.ECS.Bits > 0 {
+			if pl := w.locOf(s.ECS.prefix().Addr()); pl >= 0 {
+				noteCountry(w.Countries[pl], false)
+			}
+		}
 		r.Bucket("ecs_kind:"+s.ECS.Kind, 1)
 		r.Bucket("injected_via_"+o.Via, 1)
 		served := "?"
@@ -1442,6 +1829,25 @@ var (
 	seenKeys = map[string]bool{}
 )
 
+var (
+	countriesSeen       = map[string]bool{}
+	countriesSeenMapped = map[string]bool{}
+)
+
+// noteCountry records a country whose addresses were used with the real
+// database (as client address or option; mapped = in an IPv4-mapped option).
+func noteCountry(c string, mapped bool) {
+	if c == "" {
+		return
+	}
+	seenMu.Lock()
+	countriesSeen[c] = true
+	if mapped {
+		countriesSeenMapped[c] = true
+	}
+	seenMu.Unlock()
+}
+
 // viol reports a violation; the witness is only built for the first
 // observation of a key, further observations are counted.
 func viol(r *vkit.Run, key, what string, mk func() any) {
@@ -1497,7 +1903,38 @@ func overlapsAny(p netip.Prefix, set []netip.Prefix) bool {
 // ---------------------------------------------------------------------------
 
 func runSequential(r *vkit.Run, idx int, verbose func(string, ...any)) {
-	h := newHistory(r.Rand("seq", idx), "seq", idx)
+	runSequentialH(r, newHistory(r.Rand("seq", idx), "seq", idx), verbose)
+}
+
+// runReal runs one history against the real geoip.File (a fresh instance per
+// history, so its IP cache starts empty and fills during the history).
+func runReal(r *vkit.Run, idx int, concurrent bool, verbose func(string, ...any)) {
+	d, err := loadRealDB()
+	if err != nil || d == nil {
+		r.Inconclusive(fmt.Sprintf("real GeoIP databases unusable: %v", err))
+		return
+	}
+	if len(countriesOf(d.zones4)) < 3 || len(countriesOf(d.zones6)) < 3 {
+		r.Inconclusive(fmt.Sprintf("real GeoIP databases: too few usable zones (v4 countries %d, v6 countries %d)",
+			len(countriesOf(d.zones4)), len(countriesOf(d.zones6))))
+		return
+	}
+	variant := "real"
+	if concurrent {
+		variant = "realconc"
+	}
+	rng := r.Rand(variant, idx)
+	h := newHistoryIn(rng, variant, idx, newRealWorld(rng, d))
+	if concurrent {
+		runConcurrentH(r, h)
+	} else {
+		runSequentialH(r, h, verbose)
+	}
+	r.Bucket("histories_real_geoip", 1)
+}
+
+func runSequentialH(r *vkit.Run, h *history, verbose func(string, ...any)) {
+	idx := h.Index
 	rn, err := newRunner(h, nil)
 	if err != nil {
 		r.Inconclusive("cannot build the stack: " + err.Error())
@@ -1516,6 +1953,9 @@ func runSequential(r *vkit.Run, idx int, verbose func(string, ...any)) {
 	rn.check(r, observed, true)
 	r.Bucket("histories_sequential", 1)
 	for _, fam := range []int{4, 6} {
+		if h.World.Real != nil {
+			break
+		}
 		kinds := map[string]bool{}
 		for a := 0; a < 3; a++ {
 			for b := a + 1; b < 3; b++ {
@@ -1563,8 +2003,10 @@ func ecsOf0(m *dns.Msg) []ecsSeen {
 }
 
 func runConcurrent(r *vkit.Run, idx int) {
-	rng := r.Rand("conc", idx)
-	h := newHistory(rng, "conc", idx)
+	runConcurrentH(r, newHistory(r.Rand("conc", idx), "conc", idx))
+}
+
+func runConcurrentH(r *vkit.Run, h *history) {
 	// Concentrate on two questions so that concurrent requests collide on
 	// cache entries.
 	for i := range h.Steps {
@@ -1615,10 +2057,14 @@ func TestCheck(t *testing.T) {
 		"malformed: bad family, family 0, prefix too long, bits beyond prefix, bad address length; irregular-but-lenient wire forms; two options} x 4 questions " +
 		"(upstream scope script: no OPT, no ECS, scope 0, =source, <source, >source, fixed 16, alternating, NXDOMAIN; names from the fake-ECS list; TTL 0/2/3600) x DO; " +
 		"one evaluation per request; class = (client family, location kind, ECS class+family, upstream mode, qtype, DO, fresh/cached-scoped/cached-unscoped/cached-fakelist); " +
+		"a second phase runs the same histories with the real geoip.File on the repository's test databases (clients and options from database networks of >=3 countries per family, " +
+		"IPv6-family options with IPv4-mapped addresses, small and large GeoIP IP cache); " +
 		"non-trivial = the request carried an ECS option, or came from a located client, or was served from the cache, or went upstream past a cached answer of another subnet")
 	r.Assume("the GeoIP fake implements the documented SubnetByLocation order (ASN-specific, country-wide, unspecified prefix of the family)")
 	r.Assume("names in ecscache.FakeECSFQDNs are documented as not ECS-dependent: their scoped answers may be shared")
 	r.Assume("option validity is judged on the message as parsed by the DNS library; wire forms the library normalises (zero padding, short address) may be served or refused")
+	r.Assume("real-database phase: the expected location and subnets of an address come from a second geoip.File instance queried once per zone with plain (unmapped) addresses; " +
+		"every address used lies in a zone with uniform records in both test databases and no two zones share a block of the GeoIP IP cache (/24, /56)")
 	r.Assume("extra upstream calls (TTL expiry, LRU eviction, concurrent misses) are never violations")
 
 	if p := vkit.ReplayPath(); p != "" {
@@ -1630,9 +2076,14 @@ func TestCheck(t *testing.T) {
 		}
 		if b, err := os.ReadFile(p); err == nil && json.Unmarshal(b, &doc) == nil && doc.Witness.Variant != "" {
 			t.Logf("replaying %s history %d", doc.Witness.Variant, doc.Witness.History)
-			if doc.Witness.Variant == "conc" {
+			switch doc.Witness.Variant {
+			case "conc":
 				runConcurrent(r, doc.Witness.History)
-			} else {
+			case "real":
+				runReal(r, doc.Witness.History, false, t.Logf)
+			case "realconc":
+				runReal(r, doc.Witness.History, true, nil)
+			default:
 				runSequential(r, doc.Witness.History, t.Logf)
 				r.Sample(map[string]any{"replayed": p})
 			}
@@ -1649,7 +2100,24 @@ func TestCheck(t *testing.T) {
 	for i := 0; i < nConc; i++ {
 		runConcurrent(r, i)
 	}
-	r.Extra("histories", map[string]int{"sequential": nSeq, "concurrent": nConc})
+	// The same kind of histories with the real geoip.File on the repository's
+	// test databases (IPv4-mapped options, its IP cache).
+	nReal, nRealConc := r.N(60, 1200), r.N(10, 200)
+	for i := 0; i < nReal; i++ {
+		runReal(r, i, false, nil)
+	}
+	for i := 0; i < nRealConc; i++ {
+		runReal(r, i, true, nil)
+	}
+	seenMu.Lock()
+	r.Bucket("realgeo_distinct_countries", int64(len(countriesSeen)))
+	r.Bucket("realgeo_distinct_countries_in_mapped_options", int64(len(countriesSeenMapped)))
+	seenMu.Unlock()
+	if d, _ := loadRealDB(); d != nil {
+		r.Extra("real_geoip_zones", map[string]any{"ipv4": len(d.zones4), "ipv6": len(d.zones6), "no_country": len(d.unknown),
+			"ipv4_countries": len(countriesOf(d.zones4)), "ipv6_countries": len(countriesOf(d.zones6))})
+	}
+	r.Extra("histories", map[string]int{"sequential": nSeq, "concurrent": nConc, "real_geoip_sequential": nReal, "real_geoip_concurrent": nRealConc})
 	r.Exhaustive(false)
 
 	r.Require("requests", 10000)
@@ -1667,4 +2135,9 @@ func TestCheck(t *testing.T) {
 	r.Require("echo_ok", 2000)
 	r.Require("echo_absent_ok", 2000)
 	r.Require("concurrent_requests", 2000)
+	r.Require("realgeo_requests", 3000)
+	r.Require("realgeo_mapped_option_requests", 400)
+	r.Require("realgeo_mapped_option_after_mapped_option_of_other_country", 200)
+	r.Require("realgeo_distinct_countries_in_mapped_options", 3)
+	r.Require("realgeo_distinct_countries", 10)
 }
